@@ -54,3 +54,22 @@ def goals_for(pid, tier):
             g.props.append(pid)
         out.append(g)
     return out
+
+
+# ------------------------------------------------------------------ unit fixed
+def fixed_goals():
+    un = dict(unwind=34, backends=('sat', 'cvc5bv'))
+    return [enforce('fixed', 'Format02d', **un), enforce('fixed', 'Parse02d', **un),
+            enforce('fixed', 'FixedOffsetFromName', timeout=300, **un), enforce('fixed', 'FixedOffsetToName', timeout=300, **un),
+            enforce('fixed', 'FixedOffsetToAbbr', timeout=300, **un),
+            G('pl_C15_roundtrip', 'fixed', harness='pl_C15_roundtrip', kind='lemma', timeout=300, **un),
+            G('pl_C15_far_is_utc', 'fixed', harness='pl_C15_far_is_utc', kind='lemma', timeout=300, **un)]
+
+
+PROPERTIES['C15'] = dict(
+    goals=fixed_goals,
+    trusted_base=['/verif/stubs/vstr.h (executable model of the std::string subset; capacity 32 bytes)',
+                  'CBMC built-in model of strchr', '/verif/stubs/prelude.h'],
+    not_decided='zone-level half (lookup of a fixed zone reports that offset at every instant; name cache identity) is decided under C01/C14, not here',
+    assumptions=['names longer than 31 bytes are outside the std::string model (the code only compares their length)'],
+)
